@@ -230,6 +230,9 @@ func C12(tier rt.Tier) int {
 		// a few 3-key shapes (root branch with nested branch, deep pair under a branch)
 		cs = append(cs, content{[]int{0, 1, 5}, []string{"a", "b", "a"}}, content{[]int{0, 2, 3}, []string{"b", "a", "a"}}, content{[]int{2, 3, 4}, []string{"a", "a", "b"}})
 	}
+	// live entries of weight 0 beside weighted ones (a non-empty trie of TOTAL weight 0 is left out: the library's
+	// own idiom takes weight 0 for "empty", see C10)
+	cs = append(cs, content{[]int{0, 1}, []string{"z", "a"}}, content{[]int{0, 5}, []string{"a", "z"}}, content{[]int{0, 1, 2}, []string{"z", "z", "a"}}, content{[]int{0, 2, 5}, []string{"z", "a", "z"}})
 	// (A) small contents: every subset of the six keys as request, every follow-up sequence
 	for _, c := range cs {
 		for _, mode := range modes {
